@@ -35,7 +35,11 @@ SPEC = {
              "out-of-domain probes (counted only). Then seeded random cases: trees of depth <= 3 with ints up to 300 bits, "
              "floats from random bit patterns, strings from a pool of 60 awkward strings or random over markup/space/"
              "non-BMP characters, keys from 16 XML names; random element trees with wrong/missing/unknown types, duplicate "
-             "tags and forced py_type; random registry histories; random trees with lone surrogates injected in value, list-item "
+             "tags and forced py_type; random registry histories; 96 syntax-like tokens (// /* # <!-- <![CDATA[ ]]> &amp; &amp;amp; &lt; --- ... ': ' '- ' "
+             "{} [] quotes backslashes \\u0000 %-formats null/true/~/yes/1e3/0x10/0o7/1_000 look-alikes, XML/YAML/JSON fragments) "
+             "x 10 placements (alone, leading/trailing space, after white space, at a line start inside the string) as value, "
+             "list item, nested value (all five formats) and as key (json/yaml/pickle/bson), deterministic, plus random "
+             "injection of such text into random trees; random trees with lone surrogates injected in value, list-item "
              "and key positions (never a high surrogate directly before a low one) for json/yaml/pickle. non-trivial = non-empty tree / any element / a history "
              "with a lookup; distinct = distinct case"),
     "trusted_base": [KERNEL, "Print Assumptions: closed under the global context (no axioms)", TIE, HARNESS,
